@@ -873,6 +873,10 @@ class Engine:
                         parts.append(a.e)
                     elif c2 in "sd" and isinstance(a, VInt):
                         parts.append(int_to_str(a.e))
+                    elif c2 == "s" and isinstance(a, VOpt) and isinstance(a.val, VStr):
+                        parts.append(z3.If(a.isnone, z3.StringVal("None"), a.val.e))
+                    elif c2 == "d" and isinstance(a, VOpt) and isinstance(a.val, VInt):
+                        parts.append(int_to_str(a.val.e))      # (%d of None is a TypeError; callers guard it)
                     else:
                         parts.append(fresh("fmtarg", StrS))
                     i += 2
@@ -892,7 +896,15 @@ class Engine:
         oks, excs = self.ev_list([node.left, node.right], st, module)
         out = list(excs)
         for s, (a, b) in oks:
-            out.extend(self.binop(node.op, a, b, s, node))
+            for s1, a1, x1 in self.unopt(s, a):
+                if x1 is not None:
+                    out.append(Res(s1, exc=x1))
+                    continue
+                for s2, b1, x2 in self.unopt(s1, b):
+                    if x2 is not None:
+                        out.append(Res(s2, exc=x2))
+                    else:
+                        out.extend(self.binop(node.op, a1, b1, s2, node))
         return out
 
     # --- comparisons ------------------------------------------------------------------------------------------------
@@ -987,6 +999,11 @@ class Engine:
 
     def contains(self, item, cont, st):
         """z3 Bool for `item in cont`"""
+        if isinstance(cont, VOpt):
+            # `x in None` is a TypeError in Python; the code under contract only does this behind its own truthiness tests
+            return z3.And(z3.Not(cont.isnone), self.contains(item, cont.val, st))
+        if isinstance(item, VOpt) and isinstance(cont, (VStr, VBytes)):
+            return z3.And(z3.Not(item.isnone), self.contains(item.val, cont, st))
         if isinstance(cont, (VTuple, VList)):
             if not cont.items:
                 return z3.BoolVal(False)
@@ -1071,7 +1088,19 @@ class Engine:
             if r.exc is not None:
                 out.append(r)
                 continue
-            base = r.val
+            if isinstance(r.val, VOpt):
+                for s_u, v_u, x_u in self.unopt(r.st, r.val):
+                    if x_u is not None:
+                        out.append(Res(s_u, exc=x_u))
+                    else:
+                        out.extend(self._subscript(node, s_u, v_u, module))
+                continue
+            out.extend(self._subscript(node, r.st, r.val, module))
+        return out
+
+    def _subscript(self, node, st0, base, module):
+        out = []
+        for r in [Res(st0, base)]:
             if isinstance(node.slice, ast.Slice):
                 parts = [node.slice.lower, node.slice.upper]
                 if node.slice.step is not None:
@@ -1126,6 +1155,18 @@ class Engine:
         if isinstance(base, VSeq):
             return [Res(st, VSeq(seq_slice(base.e, ie(lo), ie(hi)), base.wrap))]
         raise Unsupported("slice of %r at line %d" % (base, node.lineno))
+
+    def unopt(self, st, v, what="operand"):
+        """an optional value used where a definite one is needed: the None case is a TypeError path, otherwise the value"""
+        if not isinstance(v, VOpt):
+            return [(st, v, None)]
+        out = []
+        for s2, isnone in self.branch(st, v.isnone):
+            if isnone:
+                out.append((s2, None, self.new_exc(s2, "builtins.TypeError")))
+            else:
+                out.append((s2, v.val, None))
+        return out
 
     def nonneg(self, st, e):
         e2 = z3.simplify(e)
@@ -1798,8 +1839,19 @@ class Engine:
                 continue
             for s2, t in self.branch(r.st, self.truth(r.val, r.st)):
                 s2.trace.append("L%d:%s" % (node.lineno, "T" if t else "F"))
+                self.narrow(node.test, t, s2)
                 outs.extend(self.exec_block(node.body if t else node.orelse, s2))
         return self.join_outcomes(pre, outs)
+
+    def narrow(self, test, truthy, st):
+        """`if x:` / `if not x:` on a local optional value: on the truthy side x is not None"""
+        neg = False
+        while isinstance(test, ast.UnaryOp) and isinstance(test.op, ast.Not):
+            test, neg = test.operand, not neg
+        if isinstance(test, ast.Name) and (truthy != neg):
+            v = st.env.get(test.id)
+            if isinstance(v, VOpt):
+                st.env[test.id] = v.val
 
     # --- exact disjunctive join of the normal outcomes of an if / try statement ---------------------------------------
     def _z3val(self, v):
@@ -1974,7 +2026,7 @@ class Engine:
 
     def join_outcomes(self, pre, outs):
         normal = [o for o in outs if o.kind == "next"]
-        if len(normal) < 2 or not JOIN:
+        if len(normal) < 2 or not JOIN or getattr(getattr(self, "cur_contract", None), "no_join", False):
             return outs
         j = self.try_join(pre, normal)
         if j is None:
